@@ -47,7 +47,7 @@ def parse_directive(lines):
     first = lines[0].strip()[3:].strip()
     kind, _, head = first.partition(' ')
     opts = []
-    keyre = re.compile(r'^(spec|loop \d+|sub|sig|mode|name|ghost|after|before|closure \d+|rules|drop_attrs|keep|impl_as|field|attr)\s*:\s?(.*)$')
+    keyre = re.compile(r'^(spec|loop \d+|sub|sig|mode|name|ghost|after|before|closure \d+|rules|drop_attrs|keep|impl_as|field|attr|presub)\s*:\s?(.*)$')
     for ln in lines[1:]:
         body = ln.strip()[3:]
         if body.startswith(' '):
@@ -379,9 +379,9 @@ class Builder:
             raise Undecided(f'lost anchor: {rel}: {e}')
         return rel, src, it, impl, name
 
-    def _apply_subs(self, text, opts, fired):
+    def _apply_subs(self, text, opts, fired, which='sub'):
         for key, val in opts:
-            if key != 'sub':
+            if key != which:
                 continue
             m = re.match(r'/(.*)/\s*=>\s?(.*)$', val, re.S)
             if not m:
@@ -405,6 +405,7 @@ class Builder:
             self._auto_consts(rel, src, orig)
         fired = {}
         text = rs.strip_comments(orig)
+        text = self._apply_subs(text, opts, fired, 'presub')
         text = R.apply_rules(text, self.unit_rules, fired, self.extra_subs)
         text = self._apply_subs(text, opts, fired)
         sig = split_sig(text)
